@@ -2,6 +2,7 @@ import XModel.Capstone
 import XModel.Link
 import XModel.Unique
 import XModel.Acyclic
+import XModel.ManagerC13
 /-!
 # C01 — expression-defined locations always equal their definition on current data
 
@@ -58,6 +59,15 @@ theorem C01_set_expr (sched : Sched) (s : MState) (p : Path) (e : Expr) (hi : MI
     (s' : MState) (hok : setExpr sched s p e = (s', none)) :
     ∀ t ∈ s'.defs, ∃ w, eval pySem s'.store (toE t).expr = .ok w ∧ get s'.store t.id = .ok w :=
   (setExpr_consistent sched s p e hi hc sc hvs s' hok).1
+
+/-- **every other location holds the last value assigned to it**: the assigned location holds the value, and what is
+    neither assigned nor (above / below) a definition's target is unchanged -/
+theorem C01_other_locations (sched : Sched) (s : MState) (p : Path) (v : Val) (hi : MInv s)
+    (sc : Scope (preState s p) p) (s' : MState) (hok : setValue sched s p v = (s', none)) :
+    get s'.store p = .ok v ∧
+    ∀ q, canonPath q → Incomparable p q → (∀ t ∈ (preState s p).defs, Incomparable t.id q) →
+      get s'.store q = get s.store q :=
+  setValue_other_locations sched s p v hi sc s' hok
 
 /-- **all histories** of in-scope, completed assignments and maintenance calls -/
 theorem C01_histories (sched : Sched) (cs : List Call) (s : MState) (hi : MInv s) (hc : Consistent s)
